@@ -1,5 +1,6 @@
-From CL Require Import Model.Analysis.
+From CL Require Import Model.Analysis Model.AnalysisSpec.
 Require Extraction.
 Require ExtrOcamlBasic.
 Extraction Language OCaml.
-Extraction "analysis_model.ml" analyse run init output is_valid cfg0 cfgF mods_of_bits mods_bits parser_shaped shape_run.
+Extraction "analysis_model.ml" analyse run init output is_valid cfg0 cfgF mods_of_bits mods_bits parser_shaped shape_run
+  recipe_ok_b valid_tbl_b.
